@@ -362,7 +362,7 @@ func drawSmallCodecValue(t *rapid.T, codec uint64, label string) val.V {
 }
 
 var c06Part = evid.Part[C06Case]{
-	Prop: "C06", Name: "loadfaults", Quick: 320, Thorough: 8000,
+	Prop: "C06", Name: "loadfaults", Quick: 320, Thorough: 80000,
 	Rule: "per drawn block (small value × 5 codecs × 10 hash functions incl. identity and 1-2 byte truncated digests; blocks ≤160 B): EVERY single-bit flip, EVERY truncation length, extensions (1 byte, whitespace, duplicate item, random tail; also delivered in chunks ending at the old end, byte-wise, and with a (0, nil) read at the old end), a (0, nil) read after EVERY offset of the correct block, substitution by another block / empty block, a read error after EVERY offset, EVERY fixed chunk size with and without (n>0, EOF), a random chunking, an open error — each against Load, LoadRaw, LoadPlusRaw and Fill; evaluations counts every (fault, loader) execution; distinct_nontrivial counts (block, fault class, loader) triples, each class being enumerated completely for its block",
 	Gen: func(t *rapid.T) C06Case {
 		lp := drawC06LP(t)
@@ -486,7 +486,7 @@ func c06StoreCheck(c C06StoreCase, rec *evid.Rec) error {
 }
 
 var c06Store = evid.Part[C06StoreCase]{
-	Prop: "C06", Name: "storefaults", Quick: 1500, Thorough: 100000,
+	Prop: "C06", Name: "storefaults", Quick: 1500, Thorough: 400000,
 	Rule: "Store with a writer that fails after a drawn number of accepted bytes (0..size-1, with or without a short write), or with a node the codec cannot encode (undefined CID, bytes/links for codecs without them, non-bytes for raw) placed after a valid element; a spy committer must never be called and Store must return an error; all cases non-trivial; distinct by (block, prototype, failure point)",
 	Gen: func(t *rapid.T) C06StoreCase {
 		lp := drawC06LP(t)
